@@ -233,10 +233,36 @@ Ltac falsy_cases H :=
   cbn [In falsy_texts] in H;
   repeat (destruct H as [H|H]; [| ]); try contradiction.
 
-(* C29_nonzero, on the complement of the zero floats *)
-Lemma nonzero_truthy v : zero_float v = false -> json_nonzero v = py_truthy v.
+Lemma fmt_d_no_dot z : ~ In c_dot (fmt_d z).
 Proof.
-  intros Hz. unfold json_nonzero.
+  unfold fmt_d. destruct (z <? 0) eqn:E.
+  - destruct (digits_ok (- z)) as [_ [H2 _]]; [lia|]. intros [C|C]; [discriminate C|].
+    rewrite forallb_forall in H2. apply H2 in C. discriminate C.
+  - destruct (digits_ok z) as [_ [H2 _]]; [lia|]. intros C.
+    rewrite forallb_forall in H2. apply H2 in C. discriminate C.
+Qed.
+
+Lemma digits_dot_split ds fp : forallb is_digit ds = true -> ds ++ c_dot :: fp = [48; c_dot; 48] -> ds = [48] /\ fp = [48].
+Proof.
+  intros Hd E. destruct ds as [|x [|y r]]; cbn in E.
+  - discriminate E.
+  - inversion E. now split.
+  - inversion E as [[Hx Hy Hr]]. cbn in Hd. rewrite Hy in Hd. cbn in Hd. rewrite andb_false_r in Hd. discriminate.
+Qed.
+
+Lemma float_text_zero (neg : bool) ip fp : 0 <= ip ->
+  (if neg then [c_minus] else @nil Z) ++ digits ip ++ c_dot :: fp = (if neg then [c_minus] else @nil Z) ++ [48; c_dot; 48] ->
+  ip = 0 /\ fp = [48].
+Proof.
+  intros Hip E. destruct (digits_ok ip Hip) as [H1 [H2 _]].
+  assert (E' : digits ip ++ c_dot :: fp = [48; c_dot; 48]) by (destruct neg; cbn in E; [now inversion E | exact E]).
+  destruct (digits_dot_split _ _ H2 E') as [Hd Hf]. split; [|assumption]. rewrite Hd in H1. cbn in H1. lia.
+Qed.
+
+(* C29_nonzero: every value except a float zero that is not spelled 0.0 / -0.0 *)
+Lemma nonzero_truthy v : float_wf v = true -> odd_zero_float v = false -> json_nonzero v = py_truthy v.
+Proof.
+  intros Hwf Hz. unfold json_nonzero.
   destruct v as [|b|z|neg ip fp|s|l|d]; cbn [py_truthy].
   - reflexivity.
   - destruct b; reflexivity.
@@ -245,15 +271,32 @@ Proof.
     + apply Z.eqb_eq in E. subst. reflexivity.
     + cbn [negb]. apply negb_true_iff. destruct (existsb (str_eqb (jtext (JInt z))) falsy_texts) eqn:Ex; [|reflexivity].
       apply falsy_In in Ex. cbn [jtext] in Ex. destruct (fmt_d_head z) as [c [r [Hc Hd]]].
-      falsy_cases Ex; try (rewrite Hc in Ex; inversion Ex; subst c; destruct Hd as [Hd|Hd]; [discriminate Hd | discriminate Hd]).
-      symmetry in Ex. apply fmt_d_zero in Ex. lia.
-  - (* float: the text contains a dot, none of the six literals does *)
-    cbn [zero_float] in Hz. rewrite Hz. cbn [negb]. apply negb_true_iff.
-    destruct (existsb (str_eqb (jtext (JFloat neg ip fp))) falsy_texts) eqn:Ex; [|reflexivity].
-    apply falsy_In in Ex. cbn [jtext] in Ex.
-    assert (Hdot : In c_dot ((if neg then [c_minus] else []) ++ digits ip ++ c_dot :: fp)).
-    { apply in_or_app. right. apply in_or_app. right. now left. }
-    falsy_cases Ex; rewrite <- Ex in Hdot; cbn in Hdot; unfold c_dot, c_quote, c_lbr, c_rbr, c_lbrace, c_rbrace in Hdot; intuition discriminate.
+      falsy_cases Ex;
+        first [ (symmetry in Ex; apply fmt_d_zero in Ex; lia)
+              | (exfalso; apply (fmt_d_no_dot z); rewrite <- Ex; cbn; tauto)
+              | (rewrite Hc in Ex; inversion Ex; subst c; destruct Hd as [Hd|Hd]; discriminate Hd) ].
+  - (* float *)
+    cbn [float_wf] in Hwf. assert (Hip : 0 <= ip) by lia.
+    cbn [odd_zero_float zero_float] in Hz.
+    destruct ((ip =? 0) && forallb (fun c => c =? 48) fp) eqn:Ezero.
+    + (* a zero: spelled 0.0 / -0.0, which the list now holds *)
+      cbn [andb] in Hz. apply negb_false_iff, str_eqb_eq in Hz. apply andb_true_iff in Ezero as [Ei _]. apply Z.eqb_eq in Ei. subst.
+      destruct neg; reflexivity.
+    + cbn [negb]. apply negb_true_iff.
+      destruct (existsb (str_eqb (jtext (JFloat neg ip fp))) falsy_texts) eqn:Ex; [|reflexivity].
+      apply falsy_In in Ex. cbn [jtext] in Ex.
+      assert (Hdot : In c_dot ((if neg then [c_minus] else @nil Z) ++ digits ip ++ c_dot :: fp)).
+      { apply in_or_app. right. apply in_or_app. right. now left. }
+      assert (Hnz : forall neg' : bool, (if neg then [c_minus] else @nil Z) ++ digits ip ++ c_dot :: fp
+                                 = (if neg' then [c_minus] else @nil Z) ++ [48; c_dot; 48] -> False).
+      { intros neg' E. assert (neg' = neg) as ->.
+        { destruct neg, neg'; try reflexivity; cbn [app] in E.
+          - unfold c_minus in E. discriminate E.
+          - destruct (digits_head ip Hip) as [d0 [r0 [Hd0 Hd1]]]. rewrite Hd0 in E. cbn [app] in E. unfold c_minus in E. inversion E. subst d0. discriminate Hd1. }
+        destruct (float_text_zero neg ip fp Hip E) as [-> ->]. cbn in Ezero. discriminate. }
+      falsy_cases Ex;
+        first [ (exfalso; apply (Hnz false); rewrite <- Ex; reflexivity) | (exfalso; apply (Hnz true); rewrite <- Ex; reflexivity)
+              | (exfalso; rewrite <- Ex in Hdot; cbn in Hdot; unfold c_dot, c_quote, c_lbr, c_rbr, c_lbrace, c_rbrace in Hdot; intuition discriminate) ].
   - (* str *)
     destruct s as [|c s].
     + reflexivity.
@@ -287,29 +330,11 @@ Section Arr.
 Context {A : Type}.
 Implicit Types l : list A.
 
-Lemma sqlite_index_ok l v : ~ wraps_twice (zlen l) v -> sqlite_array_index l v = arr_get l v.
-Proof.
-  unfold wraps_twice, sqlite_array_index, arr_get, index_const. intros H. pose proof (zlen_nonneg l) as Hn.
-  set (n := zlen l) in *. destruct (v >=? 0) eqn:E.
-  - replace (v + 0) with v by lia. reflexivity.
-  - replace (Z.abs (v + 0)) with (- v) by lia.
-    destruct ((v <? - n) || (n <=? v)) eqn:E1.
-    + replace ((n - - v <? - n) || (n <=? n - - v)) with true by lia. reflexivity.
-    + replace ((n - - v <? - n) || (n <=? n - - v)) with false by lia.
-      f_equal. replace (v <? 0) with true by lia. replace (n - - v <? 0) with false by lia. lia.
-Qed.
+Lemma sqlite_index_ok l v : sqlite_array_index l v = arr_get l v.
+Proof. reflexivity. Qed.
 
-Lemma adjust_index n v : 0 <= n -> (v >= - n \/ v <= - 2 * n) -> adjust n (index_const 0 n v) = adjust n v.
-Proof.
-  unfold adjust, index_const. intros Hn H.
-  destruct (v >=? 0) eqn:E; repeat match goal with |- context [if ?c then _ else _] => destruct c eqn:? end; lia.
-Qed.
-
-Lemma sqlite_slice_ok l a b : bound_ok (zlen l) a -> bound_ok (zlen l) b -> sqlite_array_slice l a b = py_slice l a b.
-Proof.
-  unfold sqlite_array_slice, py_slice, bound_ok. intros Ha Hb. pose proof (zlen_nonneg l) as Hn.
-  destruct a as [a|], b as [b|]; cbn [option_map]; rewrite ?adjust_index by assumption; reflexivity.
-Qed.
+Lemma sqlite_slice_ok l a b : sqlite_array_slice l a b = py_slice l a b.
+Proof. unfold sqlite_array_slice, index_sqlite. destruct a, b; reflexivity. Qed.
 
 (* PostgreSQL subscripts (documented semantics): right for every index and every pair of bounds *)
 Lemma pg_index_ok l v : pg_array_index l v = arr_get l v.
@@ -338,20 +363,17 @@ Definition k_xy : str := [120; c_quote; 121].     (* x DQ y *)
 Lemma quote_key_breaks : parse_path ascii_only (json_path ascii_only [KKey k_xy]) <> Some [KKey k_xy].
 Proof. vm_compute. discriminate. Qed.
 
-Lemma zero_float_truthy : json_nonzero (JFloat false 0 [48]) = true /\ py_truthy (JFloat false 0 [48]) = false.
+(* a float zero spelled 0.00 (never written by json.dumps) is still truthy in SQL: the reason for the hypothesis of nonzero_truthy *)
+Lemma odd_zero_float_truthy : json_nonzero (JFloat false 0 [48; 48]) = true /\ py_truthy (JFloat false 0 [48; 48]) = false.
 Proof. split; reflexivity. Qed.
+
+Lemma pg_nonzero_truthy v : pg_json_nonzero v = py_truthy v.
+Proof. destruct v as [|b|z|neg ip fp|s|l|d]; cbn; try reflexivity; [now destruct b | now destruct s | now destruct l | now destruct d]. Qed.
 
 Lemma len_dict_wrong : json_array_length (JDict [([112], JInt 1); ([113], JInt 2)]) = 0
                     /\ py_len (JDict [([112], JInt 1); ([113], JInt 2)]) = Some 2.
 Proof. split; reflexivity. Qed.
 Lemma len_str_wrong : json_array_length (JStr [115; 116; 114]) = 0 /\ py_len (JStr [115; 116; 114]) = Some 3.
-Proof. split; reflexivity. Qed.
-
-Lemma array_index_wraps : sqlite_array_index [1; 2; 3] (-4) = Some 3 /\ arr_get [1; 2; 3] (-4) = None.
-Proof. split; reflexivity. Qed.
-Lemma array_slice_wraps : sqlite_array_slice [1; 2; 3] (Some (-5)) None = [2; 3] /\ py_slice [1; 2; 3] (Some (-5)) None = [1; 2; 3].
-Proof. split; reflexivity. Qed.
-Lemma array_slice_stop_wraps : sqlite_array_slice [1; 2; 3] None (Some (-5)) = [1] /\ py_slice [1; 2; 3] None (Some (-5)) = [].
 Proof. split; reflexivity. Qed.
 
 (* ------------------------------------------------------------------ == with a constant *)
